@@ -39,6 +39,11 @@ CLAIMS = {
   text="Proved in Lean for every duplicate-free graph whose edges join listed nodes: the model of topological_sort returns, when it accepts, an order containing every node exactly once with every edge going forward (C03_kahn_sound); it accepts every graph admitting a ranking (C03_kahn_complete; fuel |N|+1 suffices), so accepted <=> acyclic and any graph with a directed cycle - including cycles unreachable from any entry and graphs with no entry - is rejected (C03_accept_iff_ranked, C03_cycle_rejected); entries/exits are exactly the nodes without predecessor/successor; link(A,B) has exactly the nodes of both, all pre-existing edges and outputs(A) x inputs(B), many-to-many = union over pairs; merge is the union (commutative, idempotent, associative as sets); one step of Concat insertion adds one fresh Concat with each (distinct) parent once. Tied to the code by enumerating EVERY labelled digraph with self-loops on <=3 (quick) / <=4 (thorough) nodes through Model(nodes, edges), random digraphs on 5-8 nodes, random expressions and straight-line programs with shared intermediate models over >>, &, &=, link; the implementation's graph is canonicalised by the model's own canon and its order checked by validOrder; a structural oracle (each node once, order topological, entries/exits, no predecessor delivered twice) decides failing inputs.",
   note="Trusted: Lean kernel + standard axioms; lean/RpyModel/Graph.lean; the harness. Carried by correspondence only: equality up to Concat names for chained/nested expressions (associativity of >> and &). Finding K12 (stacked Concats deliver a predecessor twice) is mirrored by the model and reported as KNOWN-FINDING.",
   design="§6 C03"),
+ "C02": dict(
+  technique="Lean 4 proof (induction along a topological order: fixpoint, uniqueness, order-independence of the generic forward pass) + exact differential correspondence of Model.call/run on random DAGs of real nodes",
+  text="Proved in Lean for every network (any node step functions, any parents relation), every topological order of any sub-graph and every store: after one forward pass each node of the order holds its step function applied to its own previous memory/state and to the NEW states of its parents followed by its external input (C02_forward_fixpoint: each node once, after its predecessors, on their same-step outputs), nodes outside the order and all proxies/clamps are untouched (C02_not_mem), these equations have a unique solution (C02_unique) and any two topological orders of the same nodes give the same result (C02_order_irrelevant); a named external input reaches exactly the named node (C02_named_inputs). The driver instantiates these same generic functions with the concrete node step functions of the reservoir / window / readout models. Tied to the code by random DAGs of 2-7 real nodes (fan-in, fan-out, diamonds, several entries/exits; Model(nodes, edges) or >> / &), call and run with array or name-keyed inputs, 1-3 sequences, every return_states selection: every returned row, the return convention (bare vs keyed) and state() of every node are compared exactly with the model, and with a node-by-node oracle that evaluates deep copies in a harness-computed topological order.",
+  note="Trusted: Lean kernel + standard axioms; lean/RpyModel/Dataflow.lean and the node models; the harness. Fan-in column order is mirrored (parents sorted by name) - another fixed order would be reported as a correspondence break. Feedback is excluded here (C05).",
+  design="§6 C02"),
 }
 
 NOT_YET = "check not built yet in this revision (planned, see DESIGN.md §11)"
